@@ -66,7 +66,13 @@ class IkeSaController:
                 return None
 
         # generate the reply (if any)
-        reply = ike_sa.process_message(data)
+        try:
+            reply = ike_sa.process_message(data)
+        except Exception:
+            # a request that cannot be processed at all must not leave a half-open IKE_SA behind
+            if header.exchange_type == Message.Exchange.IKE_SA_INIT and header.is_request:
+                self.ike_sas.remove(ike_sa)
+            raise
 
         # if rekeyed, add the new IkeSa
         if ike_sa.state in (IkeSa.State.REKEYED, IkeSa.State.DEL_AFTER_REKEY_IKE_SA_REQ_SENT):
